@@ -167,8 +167,20 @@ def run(ctx: Ctx, rs: RuleSet, tier: str):
                            unparse(e.func.value) in mvars)
 
   def _group(e, name):
-    return (isinstance(e, ast.Subscript) and unparse(e.value) in gd and
-            isinstance(e.slice, ast.Constant) and e.slice.value == name)
+    # <match>.groupdict()[name] or <match>.group(name), possibly in a local
+    e = roles.deref(pp, e)
+    if isinstance(e, ast.Subscript):
+      base = roles.deref(pp, e.value)
+      is_gd = unparse(e.value) in gd or (
+          isinstance(base, ast.Call) and isinstance(
+              base.func, ast.Attribute) and base.func.attr == 'groupdict' and
+          unparse(base.func.value) in mvars)
+      return is_gd and isinstance(
+          e.slice, ast.Constant) and e.slice.value == name
+    return (isinstance(e, ast.Call) and isinstance(e.func, ast.Attribute) and
+            e.func.attr == 'group' and unparse(e.func.value) in mvars and
+            len(e.args) == 1 and isinstance(e.args[0], ast.Constant) and
+            e.args[0].value == name)
 
   ok_attr = ok_key = False
   for c in ctx.calls(pp):
@@ -182,14 +194,30 @@ def run(ctx: Ctx, rs: RuleSet, tier: str):
       ok_key = True
   ok = ok_attr and ok_key
   g = ctx.cfg(pp)
-  nomatch = [n for n in g.nodes() if g.kind[n] == 'if' and isinstance(
-      g.stmt[n].test, ast.UnaryOp) and isinstance(
-          g.stmt[n].test.op, ast.Not) and unparse(
-              g.stmt[n].test.operand) in mvars]
-  loud = bool(nomatch) and all(
-      g.exit not in g.reach([x for x, lab in g.succ[n] if lab == 'true'],
-                            blocked={n}, labels=cfg_lib.NO_EXC)
-      for n in nomatch)
+  from fdlstatic import dispatch
+
+  def matched(v):
+    def ev(t):
+      if isinstance(t, ast.Name) and t.id in mvars:
+        return v
+      nt = roles.is_none_test(t, mvars)
+      if nt is not None:
+        return (not v) if nt else v
+      return None
+    return ev
+
+  m_defs = [n for n in g.nodes() if g.kind[n] == 'stmt' and isinstance(
+      g.stmt[n], ast.Assign) and any(
+          isinstance(t, ast.Name) and t.id in mvars for t in g.stmt[n].targets)]
+  r_nomatch = dispatch.reach_atoms(
+      g, matched(False), start=[x for n in m_defs for x, lab in g.succ[n]
+                                if lab != 'exc'])
+  # without a match nothing is appended and the function does not return
+  loud = bool(mvars) and g.exit not in r_nomatch and not any(
+      isinstance(e, ast.Call) and isinstance(e.func, ast.Attribute) and
+      e.func.attr == 'append' for n in r_nomatch
+      for e in cfg_lib.walk_node(g, n)) and g.exit in dispatch.reach_atoms(
+          g, matched(True))
   rs.check(ok and loud, rule, pp.qualname,
            'attr_name -> Attr, key -> Key(literal_eval); unparsable input '
            'raises', ctx.loc(pp, pp.node))
@@ -200,10 +228,29 @@ def run(ctx: Ctx, rs: RuleSet, tier: str):
       rets[0].value.body).endswith('[1:]') and 'daglish.Attr' in unparse(
           rets[0].value.test)
   up = ctx.func(f'{U}.parse_path')
-  s2 = unparse(up.node)
-  ok2 = ("not path.startswith('[') and (not path.startswith('.'))" in s2 or
-         "not path.startswith('[') and not path.startswith('.')" in s2) and (
-             "path = f'.{path}'" in s2)
+  gu = ctx.cfg(up)
+  pth = up.params[0]
+
+  def leading(bracket, dot):
+    def ev(t):
+      if isinstance(t, ast.Call) and unparse(t.func) == f'{pth}.startswith' \
+          and len(t.args) == 1 and isinstance(t.args[0], ast.Constant):
+        if t.args[0].value == '[':
+          return bracket
+        if t.args[0].value == '.':
+          return dot
+        if t.args[0].value == ('[', '.') or t.args[0].value == ('.', '['):
+          return None if bracket is None or dot is None else (bracket or dot)
+      return None
+    return dispatch.through_locals(up, ev)
+
+  adds = [n for n in gu.nodes() if gu.kind[n] == 'stmt' and isinstance(
+      gu.stmt[n], ast.Assign) and unparse(gu.stmt[n].targets[0]) == pth and
+          unparse(gu.stmt[n].value) in (f"f'.{{{pth}}}'", f"'.' + {pth}")]
+  ok2 = bool(adds) and all(
+      n in dispatch.reach_atoms(gu, leading(False, False)) and
+      n not in dispatch.reach_atoms(gu, leading(True, None)) and
+      n not in dispatch.reach_atoms(gu, leading(None, True)) for n in adds)
   rs.check(ok and ok2, rule, f'{ps.qualname}+{up.qualname}',
            'the printer drops exactly the leading "." of an attribute-first '
            'path; the flag parser restores it', ctx.loc(ps, ps.node))
@@ -288,19 +335,67 @@ def run(ctx: Ctx, rs: RuleSet, tier: str):
   if val is None:
     raise AnalysisError('FiddleFlag.value property not found')
 
-  def compared_constants(f, var=None):
-    """String constants one variable is compared with (`x == 'set'`); the
+  def group_of(f):
+    """f and the private methods of its class it calls on self (a dispatch
+    may be split over such helpers)."""
+    out = [f]
+    if f.cls is not None:
+      for c in ctx.calls(f):
+        if isinstance(c.func, ast.Attribute) and isinstance(
+            c.func.value, ast.Name) and c.func.value.id == f.params[0]:
+          h = f.cls.methods.get(c.func.attr)
+          if h is not None and h.name.startswith('_') and h not in out:
+            out.append(h)
+    return out
 
-    variable is the one with most such comparisons unless given.
+  def str_elements(e, scope):
+    e = ctx.const(roles.deref(scope, e), scope) if isinstance(
+        scope, type(val)) else e
+    if isinstance(e, ast.Call) and isinstance(e.func, ast.Name) and (
+        e.func.id in ('frozenset', 'set', 'tuple', 'list')) and len(
+            e.args) == 1:
+      e = e.args[0]
+    if isinstance(e, (ast.Set, ast.Tuple, ast.List)):
+      els = e.elts
+    elif isinstance(e, ast.Dict):
+      els = e.keys
+    else:
+      return None
+    if all(isinstance(x, ast.Constant) and isinstance(x.value, str)
+           for x in els):
+      return {x.value for x in els}
+    return None
+
+  def compared_constants(f, var=None):
+    """String constants one variable is dispatched on: `x == 'set'`,
+    `x in <constant collection>`, `<constant dict>.get(x)` / `[x]`; the
+    variable is the one with most such constants unless given.
     """
     by_var = {}
-    for n in walk_function(f.node):
-      if isinstance(n, ast.Compare) and isinstance(
-          n.left, ast.Name) and len(n.ops) == 1 and isinstance(
-              n.ops[0], ast.Eq) and isinstance(
-                  n.comparators[0], ast.Constant) and isinstance(
-                      n.comparators[0].value, str):
-        by_var.setdefault(n.left.id, set()).add(n.comparators[0].value)
+    for fn in group_of(f):
+      for n in walk_function(fn.node):
+        if isinstance(n, ast.Compare) and isinstance(
+            n.left, ast.Name) and len(n.ops) == 1:
+          if isinstance(n.ops[0], ast.Eq) and isinstance(
+              n.comparators[0], ast.Constant) and isinstance(
+                  n.comparators[0].value, str):
+            by_var.setdefault(n.left.id, set()).add(n.comparators[0].value)
+          elif isinstance(n.ops[0], (ast.In, ast.NotIn)):
+            els = str_elements(n.comparators[0], fn)
+            if els:
+              by_var.setdefault(n.left.id, set()).update(els)
+        key = None
+        if isinstance(n, ast.Call) and isinstance(
+            n.func, ast.Attribute) and n.func.attr == 'get' and n.args and (
+                isinstance(n.args[0], ast.Name)):
+          key, tbl = n.args[0].id, n.func.value
+        elif isinstance(n, ast.Subscript) and isinstance(
+            n.slice, ast.Name) and isinstance(n.ctx, ast.Load):
+          key, tbl = n.slice.id, n.value
+        if key is not None:
+          els = str_elements(tbl, fn)
+          if els:
+            by_var.setdefault(key, set()).update(els)
     if var is not None:
       return by_var.get(var, set())
     return max(by_var.values(), key=len) if by_var else set()
@@ -325,9 +420,9 @@ def run(ctx: Ctx, rs: RuleSet, tier: str):
   rs.check(prefix is not None and prefix.endswith(':') and
            prefix[:-1] in base, rule, f'{ser.qualname}:prefix',
            f'serialized flag values start with {prefix!r}', ctx.loc(ser, ser.node))
-  g = ctx.cfg(val)
   # dispatch default raises; a non-matching item raises
-  raises = [n for n in g.nodes() if isinstance(g.stmt[n], ast.Raise)]
+  raises = [n for fn in group_of(val) if fn.name != '_parse_config'
+            for n in walk_function(fn.node) if isinstance(n, ast.Raise)]
   rs.check(len(raises) >= 3, rule, f'{val.qualname}:loud',
            f'{len(raises)} raising branches (bad item, non-base first '
            'command, unknown command)', ctx.loc(val, val.node),
